@@ -528,7 +528,12 @@ retry_after_fb:
             if (bnv_cb(bn->get_version_ptr(), v_at_fb)) {
                 return status::WARN_ABORTED_BY_USER;
             }
-            key_tuple child_kt = right_to_left ? key_tuple::max() : key_tuple::min();
+            // start position inside the next layer: before / after every possible entry.
+            // key_tuple::max() is itself a possible entry (a link whose slice is 0xFF x 8), and the
+            // start-side test below is strict, so right-to-left needs a tuple above it.
+            key_tuple child_kt = right_to_left
+                    ? key_tuple{~key_slice_type{0}, sizeof(key_slice_type) + 2}
+                    : key_tuple::min();
             auto child_border_node_and_v =
                 find_border(child, child_kt.get_key_slice(), child_kt.get_key_length(), check_status);
             border_node* target_border = std::get<0>(child_border_node_and_v);
